@@ -5226,7 +5226,44 @@ class Arc(Curve):
                 self.pry *= other
             if other.determinant < 0:
                 self.sweep = -self.sweep
+            self._orthogonalize()
         return self
+
+    def _orthogonalize(self):
+        """
+        After an affine map prx and pry are conjugate semi-diameters of the ellipse, which are its
+        perpendicular semi-axes only if the map was conformal. rx, ry, the rotation and every
+        t-value are read from them as if they were perpendicular, so they are replaced by the
+        semi-axes of the same ellipse, pry a quarter turn ahead of prx.
+        """
+        if self.center is None or self.prx is None or self.pry is None:
+            return
+        cx, cy = self.center.x, self.center.y
+        ux, uy = self.prx.x - cx, self.prx.y - cy
+        vx, vy = self.pry.x - cx, self.pry.y - cy
+        uu = ux * ux + uy * uy
+        vv = vx * vx + vy * vy
+        if uu == 0 or vv == 0:
+            return
+        dot = ux * vx + uy * vy
+        if abs(dot) > 1e-12 * sqrt(uu * vv):
+            delta = atan2(2.0 * dot, uu - vv) / 2.0
+            cos_d = cos(delta)
+            sin_d = sin(delta)
+            ux, uy, vx, vy = (
+                ux * cos_d + vx * sin_d,
+                uy * cos_d + vy * sin_d,
+                vx * cos_d - ux * sin_d,
+                vy * cos_d - uy * sin_d,
+            )
+            self.prx = Point(cx + ux, cy + uy)
+        elif ux * vy - uy * vx > 0:
+            return
+        a = sqrt(ux * ux + uy * uy)
+        b = sqrt(vx * vx + vy * vy)
+        if a == 0:
+            return
+        self.pry = Point(cx - uy * b / a, cy + ux * b / a)
 
     def __len__(self):
         return 5
